@@ -149,12 +149,12 @@ REGISTRY = {
         undecided_clauses=[],
     ),
     "C12": dict(
-        packs=["mem", "xfl", "loc"], level="proof",
+        packs=["mem", "xfl", "loc", "gfc"], level="proof",
         replay=dict(script="replay/mem.py", args=["C12"], timeout=600),
         bounded=[dict(name="audit-scenarios", script="replay/found.py", args=["C12", "{tier}"], timeout=1500, bound="scenarios contributed by audit sub-agents (replay/found/MANIFEST.json): repaired defects must stay repaired, recorded findings are probed"), dict(name="memory-scenarios", script="replay/mem.py", args=["C12"],
                       bound="call-form equivalence / redefinition / crash-state scenarios on a real cache directory (every truncation length of func_code.py, "
                             "missing or torn metadata and output, leftover temporaries, with and without expires_after); extract_first_line on every prefix")],
-        trusted=["abstract store contracts", "get_func_code returns the current source text; hash()/id() of live function objects are stable"],
+        trusted=["abstract store contracts", "get_func_code (under contract in the gfc pack: the block at co_firstlineno of the file as read at this call, never an exception) rests on tokenize.open / itertools.islice / inspect.getblock as assumed in contracts/gfc.py; the link between its contract and the `current source` summary of the mem pack is by inspection; hash()/id() of live function objects are stable"],
         assumptions=["a torn func_code.py never parses to exactly the current source"],
         undecided_clauses=[],
     ),
